@@ -5044,17 +5044,25 @@ class Device(utils.CompositeEventEmitter):
                 if address == peer_address:
                     pending_name.set_exception(hci.HCI_Error(error_code))
 
-            await self.send_async_command(
-                hci.HCI_Remote_Name_Request_Command(
-                    bd_addr=peer_address,
-                    page_scan_repetition_mode=hci.HCI_Remote_Name_Request_Command.R2,
-                    reserved=0,
-                    clock_offset=0,  # TODO investigate non-0 values
+            # Register for the flush before sending the command, so that a flush that
+            # happens while the command is in progress is not missed
+            pending = utils.cancel_on_event(self, Device.EVENT_FLUSH, pending_name)
+            try:
+                await self.send_async_command(
+                    hci.HCI_Remote_Name_Request_Command(
+                        bd_addr=peer_address,
+                        page_scan_repetition_mode=hci.HCI_Remote_Name_Request_Command.R2,
+                        reserved=0,
+                        clock_offset=0,  # TODO investigate non-0 values
+                    )
                 )
-            )
+            except BaseException:
+                if not pending.done():
+                    pending.cancel()
+                raise
 
             # Wait for the result
-            return await utils.cancel_on_event(self, Device.EVENT_FLUSH, pending_name)
+            return await pending
 
     # [LE only]
     @utils.experimental('Only for testing.')
